@@ -187,9 +187,9 @@ class G:
             b = min(U32, a + r.choice([1, 2, 10, 100, 4096, 5000, 65536]))
         return a, b
 
-    def hist_step(self, x, keys):
+    def hist_step(self, x, keys, force=None):
         r = self.r
-        op = r.choices(["add", "cadd", "addint", "addmany", "rem", "crem", "addr", "remr", "flip", "clear", "opt",
+        op = force or r.choices(["add", "cadd", "addint", "addmany", "rem", "crem", "addr", "remr", "flip", "clear", "opt",
                         "cloneswap", "detach", "setcow", "query", "walk4096", "fillempty", "emptyedge", "trimruns"],
                        [10, 8, 2, 4, 8, 8, 8, 8, 8, 0.3, 2, 1, 1, 1, 6, 2.5, 1, 2.5, 1.2])[0]
         self.count("histop:" + op)
@@ -542,6 +542,25 @@ def _query(g, scale):
 @suite("nbr")
 def _nbr(g, scale):
     g.suite_nbr(int(30 * scale), 40)
+
+
+@suite("sizeb")
+def _sizeb(g, scale):
+    """C14 with a TIGHT bound: bitmaps confined to chunk 0 (so that the universe term of the bound is minimal), driven through
+    the histories that change a chunk's best representation (run trimming, threshold walks, fill/empty), `size` after each"""
+    r = g.r
+    for _ in range(int(14 * scale)):
+        x = g.fresh()
+        g.emit("new %s" % x)
+        for _ in range(r.choice([1, 2, 3])):
+            g.hist_step(x, {0}, force=r.choice(["trimruns", "trimruns", "walk4096", "fillempty", "emptyedge"]))
+            g.emit("size %s" % x)
+            g.emit("wf %s" % x)
+        for _ in range(6):
+            g.hist_step(x, {0}, force=r.choice(["add", "rem", "crem", "addr", "remr", "flip"]))
+        g.emit("size %s" % x)
+        g.emit("opt %s" % x)
+        g.emit("size %s" % x)
 
 
 @suite("xform")
